@@ -50,18 +50,23 @@ def _create_override_tuple(key, has_value = True):
   retval = ConfigParserOverrideTuple(section = section, key = key, value = value)
   return retval
 
+def _item_id(over_tuple):
+  # Option keys are matched without regard to embedded whitespace (as the configuration parser does), so
+  # 'f(r, a)' and 'f(r,a)' given on the command line address the same item.
+  return (over_tuple.section, "".join(over_tuple.key.split()))
+
 def _make_config_parser(cfg_file, overrides, additional, remove, species, exclude_flag):
   override_dict = collections.OrderedDict()
   if not overrides is None:
     for override in itertools.chain.from_iterable(overrides):
       over_tuple = _create_override_tuple(override)
-      k = (over_tuple.section, over_tuple.key)
+      k = _item_id(over_tuple)
       override_dict[k] = over_tuple
 
   if not remove is None:
     for override in itertools.chain.from_iterable(remove):
       over_tuple = _create_override_tuple(override, False)
-      k = (over_tuple.section, over_tuple.key)
+      k = _item_id(over_tuple)
       override_dict[k] = over_tuple
 
   overrides_list = list(override_dict.values())
